@@ -1,9 +1,1332 @@
-use crate::check::CompResult;
+//! C11 — quorum arithmetic: commit index and vote tallies are exact.
+//!
+//! The functions are stateless, so the joint search degenerates to a complete enumeration of a
+//! finite input space; every input is evaluated by the real code and by the definitions.
+//!
+//! Inputs
+//!   M  `MajorityConfig` of size n = 0..=9 over three id universes (consecutive ids, ids near
+//!      u64::MAX, ids that all collide in the hash table's low bits) and two table layouts
+//!      (`new(set)`, `with_capacity(32)` + insert), so that the iteration order varies;
+//!      per voter: missing, or (acked index, group) with index in 0..=3 and group in 0..=2 for
+//!      n <= 7 (the stack array of majority.rs), index in 0..=2 and group in 0..=1 for n in {8,9}
+//!      (the heap path); every vector is evaluated with and without group commit.
+//!      Vote maps {yes, no, missing}^n.
+//!   J  `JointConfig` over a 5-id universe: every (incoming, outgoing) pair of the 32 x 32 that
+//!      the public API can build (`confchange::restore` over `ProgressTracker`/`Changer`; a
+//!      non-empty outgoing half needs a non-empty incoming half, so 31 of the 1024 pairs do not
+//!      exist), including overlapping halves and the empty config; per voter of the union:
+//!      missing or (index in 0..=3 [quick: 0..=2], group in 0..=2); vote maps {yes, no, missing}^|union|.
+//!   T  the public `ProgressTracker` path over a 4-id universe plus one learner and one stranger:
+//!      `maximal_committed_index` (matched in 0..=2, group in 0..=2, learner far ahead),
+//!      `tally_votes` (votes of members, the learner and the stranger), `has_quorum` (all subsets).
+//!
+//! Oracle = the definitions of the statement
+//!   commit  = max i such that every non-empty half has a strict majority of voters with
+//!             ack >= i (a missing voter acks 0); u64::MAX when there is no voter at all
+//!   vote    = Won iff every non-empty half has a strict majority of yes; Lost iff some non-empty
+//!             half cannot reach one any more (yes + missing is not a strict majority); else Pending
+//!   group commit: the result never exceeds the plain quorum index; when every voter of a half
+//!             has a non-zero group and at least two groups exist, the half's value is
+//!             min(quorum index, second-largest per-group maximum) (= the largest quorum-acked
+//!             index replicated into two groups) and the joint value is the minimum of the halves
+//!   flag    : false without group commit (non-empty config); true when the formula case applies
+//!
+//! "states" = distinct inputs, "transitions" = calls into raft-rs.
 
-pub fn run(_tier: &str, _seed: u64, _budget_s: f64, _threads: usize) -> CompResult {
-    super::not_built("quorum")
+use crate::check::CompResult;
+use crate::util::{guarded, mix};
+use raft::eraftpb::ConfState;
+use raft::verif::{AckIndexer, AckedIndexer, Index, VoteResult};
+use raft::{JointConfig, MajorityConfig, ProgressTracker};
+use serde_json::{json, Value};
+use std::collections::HashSet;
+use std::hash::BuildHasherDefault;
+use std::sync::atomic::{AtomicBool, AtomicUsize, Ordering};
+use std::sync::Mutex;
+use std::time::Instant;
+
+const ENGINE: &str = "quorum";
+const MAX_KINDS: usize = 5;
+type FxSet = HashSet<u64, BuildHasherDefault<fxhash::FxHasher>>;
+
+const UNIVERSES: [[u64; 9]; 3] = [
+    [1, 2, 3, 4, 5, 6, 7, 8, 9],
+    [
+        u64::MAX - 40,
+        u64::MAX - 3,
+        u64::MAX - 17,
+        u64::MAX - 1,
+        u64::MAX - 29,
+        u64::MAX - 8,
+        u64::MAX - 2,
+        u64::MAX - 100,
+        u64::MAX - 55,
+    ],
+    // all multiples of 16: same low hash bits, the table order depends on probing
+    [16, 32, 48, 64, 80, 96, 112, 128, 144],
+];
+const JOINT_UNIVERSES: [[u64; 5]; 2] = [[1, 2, 3, 4, 5], [16, 32, 48, 64, 80]];
+const TRACKER_IDS: [u64; 4] = [1, 2, 3, 4];
+const TRACKER_LEARNER: u64 = 7;
+const TRACKER_STRANGER: u64 = 9;
+
+// ------------------------------------------------------------------------------------------
+// the definitions (reference)
+// ------------------------------------------------------------------------------------------
+
+#[derive(Clone, Copy, PartialEq, Eq, Debug)]
+enum OV {
+    Won,
+    Lost,
+    Pending,
 }
 
-pub fn replay(_j: &serde_json::Value) -> i32 {
-    2
+fn ov_of(v: VoteResult) -> OV {
+    match v {
+        VoteResult::Won => OV::Won,
+        VoteResult::Lost => OV::Lost,
+        VoteResult::Pending => OV::Pending,
+    }
+}
+
+/// (index, group) per voter of a half; a missing voter is (0, 0).
+type HalfVals<'a> = &'a [(u64, u64)];
+
+/// max i such that every non-empty half has a strict majority with ack >= i.
+fn def_commit(halves: [HalfVals; 2]) -> u64 {
+    if halves.iter().all(|h| h.is_empty()) {
+        return u64::MAX;
+    }
+    let top = halves.iter().flat_map(|h| h.iter().map(|v| v.0)).max().unwrap_or(0);
+    let mut i = top;
+    loop {
+        let ok = halves
+            .iter()
+            .all(|h| h.is_empty() || 2 * h.iter().filter(|v| v.0 >= i).count() > h.len());
+        if ok || i == 0 {
+            return i;
+        }
+        i -= 1;
+    }
+}
+
+/// Exact group-commit value of one half when the formula case applies (every voter has a
+/// non-zero group, at least two groups): min(quorum index, second-largest per-group maximum).
+/// `Some(u64::MAX)` for an empty half (it does not constrain), `None` when the case does not apply.
+fn def_group_commit_half(h: HalfVals) -> Option<u64> {
+    if h.is_empty() {
+        return Some(u64::MAX);
+    }
+    if h.iter().any(|v| v.1 == 0) {
+        return None;
+    }
+    // per-group maxima, largest two (no allocation: this runs once per enumerated input)
+    let (mut groups, mut top, mut second) = (0usize, 0u64, 0u64);
+    for (k, v) in h.iter().enumerate() {
+        if h[..k].iter().any(|w| w.1 == v.1) {
+            continue; // group already handled at its first member
+        }
+        let gmax = h.iter().filter(|w| w.1 == v.1).map(|w| w.0).max().unwrap_or(0);
+        groups += 1;
+        if groups == 1 {
+            top = gmax;
+        } else if gmax > top {
+            second = top;
+            top = gmax;
+        } else if groups == 2 || gmax > second {
+            second = gmax;
+        }
+    }
+    if groups < 2 {
+        return None;
+    }
+    Some(def_commit([h, &[]]).min(second))
+}
+
+fn def_vote(halves: [&[Option<bool>]; 2]) -> OV {
+    let mut all_won = true;
+    let mut any_lost = false;
+    for h in halves.iter() {
+        if h.is_empty() {
+            continue;
+        }
+        let yes = h.iter().filter(|v| **v == Some(true)).count();
+        let missing = h.iter().filter(|v| v.is_none()).count();
+        if 2 * yes <= h.len() {
+            all_won = false;
+        }
+        if 2 * (yes + missing) <= h.len() {
+            any_lost = true;
+        }
+    }
+    if all_won {
+        OV::Won
+    } else if any_lost {
+        OV::Lost
+    } else {
+        OV::Pending
+    }
+}
+
+/// Judges one commit evaluation. `None` = agrees with the definitions.
+fn judge_commit(halves: [HalfVals; 2], gc: bool, got: (u64, bool)) -> Option<(&'static str, String)> {
+    let plain = def_commit(halves);
+    let nonempty = halves.iter().any(|h| !h.is_empty());
+    let formula = (def_group_commit_half(halves[0]), def_group_commit_half(halves[1]));
+    judge_commit_pre(plain, formula, nonempty, gc, got)
+}
+
+/// `judge_commit` with the definitions already evaluated (they do not depend on the flag).
+#[inline]
+fn judge_commit_pre(plain: u64, formula: (Option<u64>, Option<u64>), nonempty: bool, gc: bool, got: (u64, bool)) -> Option<(&'static str, String)> {
+    if !gc {
+        if got.0 != plain {
+            return Some(("commit-index-mismatch", format!("committed_index = {} but the largest index acked by a majority of each non-empty half is {}", got.0, plain)));
+        }
+        if nonempty && got.1 {
+            return Some(("group-commit-flag-set-without-group-commit", format!("committed_index(false) returned flag=true, index {}", got.0)));
+        }
+        return None;
+    }
+    if got.0 > plain {
+        return Some(("group-commit-exceeds-quorum-index", format!("group commit index {} > plain quorum index {}", got.0, plain)));
+    }
+    if let (Some(a), Some(b)) = formula {
+        let want = a.min(b);
+        if got.0 != want {
+            return Some(("group-commit-index-mismatch", format!("group commit index {} but min(quorum index, second-largest per-group maximum) over the halves is {} (plain quorum index {})", got.0, want, plain)));
+        }
+        if nonempty && !got.1 {
+            return Some(("group-commit-flag-clear-in-formula-case", format!("every voter has a group and two groups exist, index {} is right but flag=false", got.0)));
+        }
+    }
+    None
+}
+
+fn judge_vote(halves: [&[Option<bool>]; 2], got: OV) -> Option<(&'static str, String)> {
+    let want = def_vote(halves);
+    if got != want {
+        return Some(("vote-result-mismatch", format!("vote_result = {:?} but counting per half gives {:?}", got, want)));
+    }
+    None
+}
+
+// ------------------------------------------------------------------------------------------
+// a case = one input, self-contained (used for confirmation, validation, samples, replay)
+// ------------------------------------------------------------------------------------------
+
+#[derive(Clone, Debug, PartialEq, Eq)]
+enum What {
+    Commit,
+    Vote,
+    Tally,
+    HasQuorum,
+}
+
+#[derive(Clone, Debug)]
+struct Case {
+    /// "majority" | "joint" | "tracker"
+    path: &'static str,
+    /// 0: `new(set)`; 1: `with_capacity(32)` + insert (majority only)
+    build: u8,
+    incoming: Vec<u64>,
+    outgoing: Vec<u64>,
+    learners: Vec<u64>,
+    /// (id, index, group); ids not listed are missing
+    acks: Vec<(u64, u64, u64)>,
+    /// (id, vote); ids not listed are missing
+    votes: Vec<(u64, bool)>,
+    set: Vec<u64>,
+    gc: bool,
+    what: What,
+}
+
+impl Case {
+    fn to_json(&self) -> Value {
+        json!({
+            "path": self.path,
+            "build": self.build,
+            "incoming": self.incoming.iter().map(|x| x.to_string()).collect::<Vec<_>>(),
+            "outgoing": self.outgoing.iter().map(|x| x.to_string()).collect::<Vec<_>>(),
+            "learners": self.learners.iter().map(|x| x.to_string()).collect::<Vec<_>>(),
+            "acks": self.acks.iter().map(|(i, x, g)| json!([i.to_string(), x, g])).collect::<Vec<_>>(),
+            "votes": self.votes.iter().map(|(i, v)| json!([i.to_string(), v])).collect::<Vec<_>>(),
+            "set": self.set.iter().map(|x| x.to_string()).collect::<Vec<_>>(),
+            "use_group_commit": self.gc,
+            "what": match self.what { What::Commit => "commit", What::Vote => "vote", What::Tally => "tally", What::HasQuorum => "has_quorum" },
+        })
+    }
+    fn from_json(j: &Value) -> Option<Case> {
+        let ids = |k: &str| -> Option<Vec<u64>> {
+            j.get(k)?.as_array()?.iter().map(|x| x.as_str()?.parse::<u64>().ok()).collect()
+        };
+        let path = match j.get("path")?.as_str()? {
+            "majority" => "majority",
+            "joint" => "joint",
+            "tracker" => "tracker",
+            _ => return None,
+        };
+        let what = match j.get("what")?.as_str()? {
+            "commit" => What::Commit,
+            "vote" => What::Vote,
+            "tally" => What::Tally,
+            "has_quorum" => What::HasQuorum,
+            _ => return None,
+        };
+        let mut acks = vec![];
+        for a in j.get("acks")?.as_array()? {
+            acks.push((a.get(0)?.as_str()?.parse().ok()?, a.get(1)?.as_u64()?, a.get(2)?.as_u64()?));
+        }
+        let mut votes = vec![];
+        for a in j.get("votes")?.as_array()? {
+            votes.push((a.get(0)?.as_str()?.parse().ok()?, a.get(1)?.as_bool()?));
+        }
+        Some(Case {
+            path,
+            build: j.get("build")?.as_u64()? as u8,
+            incoming: ids("incoming")?,
+            outgoing: ids("outgoing")?,
+            learners: ids("learners")?,
+            acks,
+            votes,
+            set: ids("set")?,
+            gc: j.get("use_group_commit")?.as_bool()?,
+            what,
+        })
+    }
+    fn ack_of(&self, id: u64) -> (u64, u64) {
+        self.acks.iter().find(|a| a.0 == id).map(|a| (a.1, a.2)).unwrap_or((0, 0))
+    }
+    fn vote_of(&self, id: u64) -> Option<bool> {
+        self.votes.iter().find(|a| a.0 == id).map(|a| a.1)
+    }
+}
+
+fn panic_kind(c: &Case) -> String {
+    let f = match (c.path, &c.what) {
+        ("tracker", What::Commit) => "maximal_committed_index",
+        ("tracker", What::HasQuorum) => "has_quorum",
+        ("tracker", _) => "tally_votes",
+        (_, What::Commit) => "committed_index",
+        _ => "vote_result",
+    };
+    format!("{}-panic-in-{}", c.path, f)
+}
+
+fn build_majority(ids: &[u64], build: u8) -> MajorityConfig {
+    if build == 0 {
+        let set: FxSet = ids.iter().copied().collect();
+        MajorityConfig::new(set)
+    } else {
+        let mut c = MajorityConfig::with_capacity(32);
+        for id in ids {
+            c.insert(*id);
+        }
+        c
+    }
+}
+
+/// Builds a tracker whose configuration has the given halves (public path: confchange restore,
+/// i.e. `Changer::simple` one voter at a time, then `Changer::enter_joint`, each applied with
+/// `ProgressTracker::apply_conf`).
+fn build_tracker(incoming: &[u64], outgoing: &[u64], learners: &[u64]) -> Result<ProgressTracker, String> {
+    let mut t = ProgressTracker::new(4);
+    let mut cs = ConfState::default();
+    cs.set_voters(incoming.to_vec());
+    cs.set_voters_outgoing(outgoing.to_vec());
+    cs.set_learners(learners.to_vec());
+    raft::verif::restore(&mut t, 1, &cs).map_err(|e| format!("{:?}", e))?;
+    let v = t.conf().voters();
+    let mut want: Vec<u64> = incoming.iter().chain(outgoing.iter()).copied().collect();
+    want.sort_unstable();
+    want.dedup();
+    let mut have: Vec<u64> = v.ids().iter().collect();
+    have.sort_unstable();
+    have.dedup();
+    if have != want || incoming.iter().any(|i| !v.contains(*i)) {
+        return Err(format!("restore built voters {:?}, wanted {:?} / {:?}", have, incoming, outgoing));
+    }
+    Ok(t)
+}
+
+fn build_joint(incoming: &[u64], outgoing: &[u64]) -> Result<JointConfig, String> {
+    if outgoing.is_empty() {
+        let set: FxSet = incoming.iter().copied().collect();
+        return Ok(JointConfig::new(set));
+    }
+    Ok(build_tracker(incoming, outgoing, &[])?.conf().voters().clone())
+}
+
+/// Evaluates one case from scratch through the stock `AckIndexer` (HashMap) and judges it.
+/// Ok((observed, verdict)); Err = panic inside raft-rs or a case that cannot be built.
+fn eval_case(c: &Case) -> Result<(String, Option<(String, String)>), (String, String)> {
+    let in_vals: Vec<(u64, u64)> = c.incoming.iter().map(|i| c.ack_of(*i)).collect();
+    let out_vals: Vec<(u64, u64)> = c.outgoing.iter().map(|i| c.ack_of(*i)).collect();
+    let in_votes: Vec<Option<bool>> = c.incoming.iter().map(|i| c.vote_of(*i)).collect();
+    let out_votes: Vec<Option<bool>> = c.outgoing.iter().map(|i| c.vote_of(*i)).collect();
+    let mut acks = AckIndexer::default();
+    for (id, x, g) in &c.acks {
+        acks.insert(*id, Index { index: *x, group_id: *g });
+    }
+    let own = |v: Option<(&'static str, String)>, pre: &str| v.map(|(k, d)| (format!("{}-{}", pre, k), d));
+    guarded(|| match (c.path, &c.what) {
+        ("majority", What::Commit) => {
+            let cfg = build_majority(&c.incoming, c.build);
+            let got = cfg.committed_index(c.gc, &acks);
+            (format!("{:?}", got), own(judge_commit([&in_vals, &[]], c.gc, got), "majority"))
+        }
+        ("majority", What::Vote) => {
+            let cfg = build_majority(&c.incoming, c.build);
+            let got = ov_of(cfg.vote_result(|id| c.vote_of(id)));
+            (format!("{:?}", got), own(judge_vote([&in_votes, &[]], got), "majority"))
+        }
+        ("joint", What::Commit) => match build_joint(&c.incoming, &c.outgoing) {
+            Ok(cfg) => {
+                let got = cfg.committed_index(c.gc, &acks);
+                (format!("{:?}", got), own(judge_commit([&in_vals, &out_vals], c.gc, got), "joint"))
+            }
+            Err(e) => (e.clone(), Some(("machinery-cannot-build-config".into(), e))),
+        },
+        ("joint", What::Vote) => match build_joint(&c.incoming, &c.outgoing) {
+            Ok(cfg) => {
+                let got = ov_of(cfg.vote_result(|id| c.vote_of(id)));
+                (format!("{:?}", got), own(judge_vote([&in_votes, &out_votes], got), "joint"))
+            }
+            Err(e) => (e.clone(), Some(("machinery-cannot-build-config".into(), e))),
+        },
+        ("tracker", what) => match build_tracker(&c.incoming, &c.outgoing, &c.learners) {
+            Ok(mut t) => match what {
+                What::Commit => {
+                    t.enable_group_commit(c.gc);
+                    for (id, x, g) in &c.acks {
+                        if let Some(p) = t.get_mut(*id) {
+                            p.matched = *x;
+                            p.commit_group_id = *g;
+                        }
+                    }
+                    let got = t.maximal_committed_index();
+                    (format!("{:?}", got), own(judge_commit([&in_vals, &out_vals], c.gc, got), "tracker"))
+                }
+                What::Tally | What::Vote => {
+                    t.reset_votes();
+                    for (id, v) in &c.votes {
+                        t.record_vote(*id, *v);
+                    }
+                    let (g, r, res) = t.tally_votes();
+                    let verdict = judge_tally(c, &in_votes, &out_votes, (g, r, ov_of(res)));
+                    (format!("{:?}", (g, r, ov_of(res))), verdict)
+                }
+                What::HasQuorum => {
+                    let set: FxSet = c.set.iter().copied().collect();
+                    let got = t.has_quorum(&set);
+                    let iv: Vec<Option<bool>> = c.incoming.iter().map(|i| c.set.contains(i).then_some(true)).collect();
+                    let ov: Vec<Option<bool>> = c.outgoing.iter().map(|i| c.set.contains(i).then_some(true)).collect();
+                    let want = def_vote([&iv, &ov]) == OV::Won;
+                    let verdict = (got != want).then(|| {
+                        ("tracker-has-quorum-mismatch".to_string(), format!("has_quorum = {} but the set {} a majority of each non-empty half", got, if want { "contains" } else { "does not contain" }))
+                    });
+                    (format!("{:?}", got), verdict)
+                }
+            },
+            Err(e) => (e.clone(), Some(("machinery-cannot-build-config".into(), e))),
+        },
+        _ => ("".into(), Some(("machinery-bad-case".into(), "unknown path".into()))),
+    })
+}
+
+fn judge_tally(c: &Case, in_votes: &[Option<bool>], out_votes: &[Option<bool>], got: (usize, usize, OV)) -> Option<(String, String)> {
+    let member = |id: u64| c.incoming.contains(&id) || c.outgoing.contains(&id);
+    let granted = c.votes.iter().filter(|v| member(v.0) && v.1).count();
+    let rejected = c.votes.iter().filter(|v| member(v.0) && !v.1).count();
+    if let Some((k, d)) = judge_vote([in_votes, out_votes], got.2) {
+        return Some((format!("tracker-{}", k), d));
+    }
+    if got.0 != granted || got.1 != rejected {
+        return Some((
+            "tracker-tally-count-mismatch".into(),
+            format!("tally_votes counted granted={} rejected={} but the voters of the configuration cast granted={} rejected={}", got.0, got.1, granted, rejected),
+        ));
+    }
+    None
+}
+
+// ------------------------------------------------------------------------------------------
+// fast enumeration
+// ------------------------------------------------------------------------------------------
+
+/// Array-backed `AckedIndexer` (the trait is the public seam of committed_index).
+struct Acks {
+    ids: [u64; 9],
+    vals: [Option<Index>; 9],
+    n: usize,
+}
+
+impl AckedIndexer for Acks {
+    #[inline]
+    fn acked_index(&self, voter_id: u64) -> Option<Index> {
+        for k in 0..self.n {
+            if self.ids[k] == voter_id {
+                return self.vals[k];
+            }
+        }
+        None
+    }
+}
+
+struct Votes {
+    ids: [u64; 9],
+    vals: [Option<bool>; 9],
+    n: usize,
+}
+
+impl Votes {
+    #[inline]
+    fn get(&self, id: u64) -> Option<bool> {
+        for k in 0..self.n {
+            if self.ids[k] == id {
+                return self.vals[k];
+            }
+        }
+        None
+    }
+}
+
+#[derive(Default)]
+struct Local {
+    inputs: u64,
+    calls: u64,
+    c: Cnt,
+    /// (kind, detail, case)
+    found: Vec<(String, String, Case)>,
+    /// (case, observed) for the determinism self-check
+    samples: Vec<(Case, String)>,
+}
+
+#[derive(Default, Clone)]
+struct Cnt {
+    majority_commit_inputs: u64,
+    majority_vote_inputs: u64,
+    joint_commit_inputs: u64,
+    joint_vote_inputs: u64,
+    tracker_inputs: u64,
+    stack_path: u64,
+    heap_path: u64,
+    empty_config: u64,
+    joint_one_half_empty: u64,
+    joint_overlapping: u64,
+    joint_disjoint: u64,
+    joint_halves_disagree: u64,
+    missing_acks: u64,
+    ties_at_quorum: u64,
+    gc_formula_case: u64,
+    gc_below_plain: u64,
+    gc_single_group: u64,
+    gc_some_ungrouped: u64,
+    votes_won: u64,
+    votes_lost: u64,
+    votes_pending: u64,
+    joint_won_one_half_only: u64,
+    tally_nonmember_votes: u64,
+    alt_layout_inputs: u64,
+}
+
+macro_rules! cnt_fields {
+    ($m:ident) => {
+        $m!(
+            majority_commit_inputs, majority_vote_inputs, joint_commit_inputs, joint_vote_inputs, tracker_inputs,
+            stack_path, heap_path, empty_config, joint_one_half_empty, joint_overlapping, joint_disjoint,
+            joint_halves_disagree, missing_acks, ties_at_quorum, gc_formula_case, gc_below_plain, gc_single_group,
+            gc_some_ungrouped, votes_won, votes_lost, votes_pending, joint_won_one_half_only, tally_nonmember_votes,
+            alt_layout_inputs
+        )
+    };
+}
+
+impl Cnt {
+    fn merge(&mut self, o: &Cnt) {
+        macro_rules! m { ($($f:ident),*) => { $( self.$f += o.$f; )* } }
+        cnt_fields!(m);
+    }
+    fn json(&self) -> Value {
+        let mut j = json!({});
+        macro_rules! m { ($($f:ident),*) => { $( j[stringify!($f)] = json!(self.$f); )* } }
+        cnt_fields!(m);
+        j
+    }
+}
+
+/// One unit of work.
+#[derive(Clone, Debug)]
+enum Task {
+    /// majority commit: universe, n, layout, (index values, group values), fixed leading digits
+    MajCommit { u: usize, n: usize, build: u8, iv: u64, gv: u64, prefix: Vec<u8> },
+    MajVotes { u: usize, n: usize, build: u8 },
+    /// joint commit + votes: universe, incoming mask, outgoing mask
+    Joint { u: usize, im: u32, om: u32, iv: u64, gv: u64 },
+    Tracker { im: u32, om: u32 },
+}
+
+impl Task {
+    fn weight(&self) -> u64 {
+        match self {
+            Task::MajCommit { n, iv, gv, prefix, .. } => (1 + iv * gv).pow((*n - prefix.len()) as u32),
+            Task::MajVotes { n, .. } => 3u64.pow(*n as u32),
+            Task::Joint { im, om, iv, gv, .. } => (1 + iv * gv).pow((im | om).count_ones()),
+            Task::Tracker { im, om } => 9u64.pow((im | om).count_ones()) * 2,
+        }
+    }
+    fn order(&self) -> (u64, u64) {
+        // small configurations first so that a reported counterexample is a small one
+        match self {
+            Task::MajVotes { n, .. } => (*n as u64, 0),
+            Task::MajCommit { n, .. } => (*n as u64, 1),
+            Task::Joint { im, om, .. } => ((im.count_ones() + om.count_ones()) as u64, 2),
+            Task::Tracker { im, om } => ((im.count_ones() + om.count_ones()) as u64, 3),
+        }
+    }
+}
+
+fn mask_ids(universe: &[u64], m: u32) -> Vec<u64> {
+    (0..universe.len()).filter(|k| m >> k & 1 == 1).map(|k| universe[k]).collect()
+}
+
+fn permuted(ids: &[u64], seed: u64) -> Vec<u64> {
+    let mut v = ids.to_vec();
+    if seed != 0 {
+        let mut s = seed;
+        for i in (1..v.len()).rev() {
+            s = mix(s, i as u64 + 77);
+            v.swap(i, (s % (i as u64 + 1)) as usize);
+        }
+    }
+    v
+}
+
+#[inline]
+fn digit_val(d: u8, gv: u64) -> Option<Index> {
+    if d == 0 {
+        None
+    } else {
+        let x = (d - 1) as u64;
+        Some(Index { index: x / gv, group_id: x % gv })
+    }
+}
+
+struct Shared {
+    stop: AtomicBool,
+    timed_out: AtomicBool,
+    deadline: Instant,
+}
+
+/// Enumerates every ack vector over `ids` (digits with the given fixed prefix), evaluates
+/// `f(use_group_commit, &acks)` for both flags and judges the results against the halves.
+#[allow(clippy::too_many_arguments)]
+fn enum_acks<F: FnMut(bool, &Acks) -> (u64, bool)>(
+    mut f: F,
+    mk_case: &dyn Fn() -> Case,
+    pre: &str,
+    ids: &[u64],
+    in_pos: &[usize],
+    out_pos: &[usize],
+    iv: u64,
+    gv: u64,
+    prefix: &[u8],
+    joint: bool,
+    alt_layout: bool,
+    l: &mut Local,
+    sh: &Shared,
+    sample_at: u64,
+) {
+    let n = ids.len();
+    let base = (1 + iv * gv) as u8;
+    let mut acks = Acks { ids: [0; 9], vals: [None; 9], n };
+    acks.ids[..n].copy_from_slice(ids);
+    let mut digits = [0u8; 9];
+    digits[..prefix.len()].copy_from_slice(prefix);
+    let free_from = prefix.len();
+    let mut vals = [(0u64, 0u64); 9];
+    let mut inb = [(0u64, 0u64); 9];
+    let mut outb = [(0u64, 0u64); 9];
+    let mut local_n = 0u64;
+    loop {
+        let mut missing = 0;
+        for k in 0..n {
+            let v = digit_val(digits[k], gv);
+            acks.vals[k] = v;
+            vals[k] = v.map(|x| (x.index, x.group_id)).unwrap_or((0, 0));
+            missing += v.is_none() as u64;
+        }
+        for (a, p) in in_pos.iter().enumerate() {
+            inb[a] = vals[*p];
+        }
+        for (a, p) in out_pos.iter().enumerate() {
+            outb[a] = vals[*p];
+        }
+        let halves: [HalfVals; 2] = [&inb[..in_pos.len()], &outb[..out_pos.len()]];
+        let mut results = [(0u64, false); 2];
+        let plain = def_commit(halves);
+        let formula = (def_group_commit_half(halves[0]), def_group_commit_half(halves[1]));
+        for (gi, gc) in [false, true].into_iter().enumerate() {
+            let r = guarded(|| f(gc, &acks));
+            l.calls += 1;
+            let verdict = match r {
+                Ok(got) => {
+                    results[gi] = got;
+                    judge_commit_pre(plain, formula, n > 0, gc, got).map(|(k, d)| (format!("{}-{}", pre, k), d))
+                }
+                Err((msg, loc)) => Some((format!("{}-panic-in-committed_index", pre), format!("{} @ {}", msg, loc))),
+            };
+            if let Some((kind, detail)) = verdict {
+                let mut c = mk_case();
+                c.gc = gc;
+                c.acks = (0..n).filter_map(|k| acks.vals[k].map(|x| (ids[k], x.index, x.group_id))).collect();
+                l.found.push((kind, detail, c));
+                sh.stop.store(true, Ordering::Relaxed);
+                return;
+            }
+        }
+        // bookkeeping
+        if alt_layout {
+            l.c.alt_layout_inputs += 1;
+        } else {
+            l.inputs += 1;
+            if joint {
+                l.c.joint_commit_inputs += 1;
+            } else {
+                l.c.majority_commit_inputs += 1;
+            }
+        }
+        l.c.missing_acks += (missing > 0) as u64;
+        for h in halves.iter() {
+            if h.is_empty() {
+                continue;
+            }
+            if h.len() <= 7 {
+                l.c.stack_path += 1;
+            } else {
+                l.c.heap_path += 1;
+            }
+            if h.iter().filter(|v| v.0 == plain).count() > 1 {
+                l.c.ties_at_quorum += 1;
+            }
+        }
+        if n == 0 {
+            l.c.empty_config += 1;
+        }
+        if joint && !halves[0].is_empty() && !halves[1].is_empty() && def_commit([halves[0], &[]]) != def_commit([halves[1], &[]]) {
+            l.c.joint_halves_disagree += 1;
+        }
+        if n > 0 {
+            if formula.0.is_some() && formula.1.is_some() {
+                l.c.gc_formula_case += 1;
+                if results[1].0 < plain {
+                    l.c.gc_below_plain += 1;
+                }
+            } else if halves.iter().any(|h| h.iter().any(|v| v.1 == 0)) {
+                l.c.gc_some_ungrouped += 1;
+            } else {
+                l.c.gc_single_group += 1;
+            }
+        }
+        if local_n == sample_at {
+            let mut c = mk_case();
+            c.gc = true;
+            c.acks = (0..n).filter_map(|k| acks.vals[k].map(|x| (ids[k], x.index, x.group_id))).collect();
+            l.samples.push((c, format!("{:?}", results[1])));
+        }
+        local_n += 1;
+        if local_n % 65536 == 0 && (sh.stop.load(Ordering::Relaxed) || Instant::now() > sh.deadline) {
+            if !sh.stop.load(Ordering::Relaxed) {
+                sh.timed_out.store(true, Ordering::Relaxed);
+            }
+            return;
+        }
+        // next vector
+        let mut k = n;
+        loop {
+            if k == free_from {
+                return;
+            }
+            k -= 1;
+            digits[k] += 1;
+            if digits[k] < base {
+                break;
+            }
+            digits[k] = 0;
+        }
+    }
+}
+
+/// Enumerates every vote map over `ids`.
+#[allow(clippy::too_many_arguments)]
+fn enum_votes<F: FnMut(&Votes) -> VoteResult>(
+    mut f: F,
+    mk_case: &dyn Fn() -> Case,
+    pre: &str,
+    ids: &[u64],
+    in_pos: &[usize],
+    out_pos: &[usize],
+    joint: bool,
+    alt_layout: bool,
+    l: &mut Local,
+    sh: &Shared,
+    sample_at: u64,
+) {
+    let n = ids.len();
+    let mut votes = Votes { ids: [0; 9], vals: [None; 9], n };
+    votes.ids[..n].copy_from_slice(ids);
+    let mut digits = [0u8; 9];
+    let mut inb = [None; 9];
+    let mut outb = [None; 9];
+    let mut local_n = 0u64;
+    loop {
+        for k in 0..n {
+            votes.vals[k] = match digits[k] {
+                0 => None,
+                1 => Some(true),
+                _ => Some(false),
+            };
+        }
+        for (a, p) in in_pos.iter().enumerate() {
+            inb[a] = votes.vals[*p];
+        }
+        for (a, p) in out_pos.iter().enumerate() {
+            outb[a] = votes.vals[*p];
+        }
+        let halves: [&[Option<bool>]; 2] = [&inb[..in_pos.len()], &outb[..out_pos.len()]];
+        let r = guarded(|| f(&votes));
+        l.calls += 1;
+        let mut observed = OV::Pending;
+        let verdict = match r {
+            Ok(got) => {
+                observed = ov_of(got);
+                judge_vote(halves, observed).map(|(k, d)| (format!("{}-{}", pre, k), d))
+            }
+            Err((msg, loc)) => Some((format!("{}-panic-in-vote_result", pre), format!("{} @ {}", msg, loc))),
+        };
+        let fill = |c: &mut Case| {
+            c.what = What::Vote;
+            c.votes = (0..n).filter_map(|k| votes.vals[k].map(|v| (ids[k], v))).collect();
+        };
+        if let Some((kind, detail)) = verdict {
+            let mut c = mk_case();
+            fill(&mut c);
+            l.found.push((kind, detail, c));
+            sh.stop.store(true, Ordering::Relaxed);
+            return;
+        }
+        if alt_layout {
+            l.c.alt_layout_inputs += 1;
+        } else {
+            l.inputs += 1;
+            if joint {
+                l.c.joint_vote_inputs += 1;
+            } else {
+                l.c.majority_vote_inputs += 1;
+            }
+        }
+        match observed {
+            OV::Won => l.c.votes_won += 1,
+            OV::Lost => l.c.votes_lost += 1,
+            OV::Pending => l.c.votes_pending += 1,
+        }
+        if joint && !halves[0].is_empty() && !halves[1].is_empty() {
+            let a = def_vote([halves[0], &[]]);
+            let b = def_vote([halves[1], &[]]);
+            if (a == OV::Won) != (b == OV::Won) {
+                l.c.joint_won_one_half_only += 1;
+            }
+        }
+        if local_n == sample_at {
+            let mut c = mk_case();
+            fill(&mut c);
+            l.samples.push((c, format!("{:?}", observed)));
+        }
+        local_n += 1;
+        let mut k = n;
+        loop {
+            if k == 0 {
+                return;
+            }
+            k -= 1;
+            digits[k] += 1;
+            if digits[k] < 3 {
+                break;
+            }
+            digits[k] = 0;
+        }
+    }
+}
+
+fn blank_case(path: &'static str, build: u8, incoming: &[u64], outgoing: &[u64]) -> Case {
+    Case {
+        path,
+        build,
+        incoming: incoming.to_vec(),
+        outgoing: outgoing.to_vec(),
+        learners: vec![],
+        acks: vec![],
+        votes: vec![],
+        set: vec![],
+        gc: false,
+        what: What::Commit,
+    }
+}
+
+fn positions(union: &[u64], half: &[u64]) -> Vec<usize> {
+    half.iter().map(|id| union.iter().position(|u| u == id).unwrap()).collect()
+}
+
+fn machinery(l: &mut Local, sh: &Shared, what: String, c: Case) {
+    l.found.push(("machinery-cannot-build-config".into(), what, c));
+    sh.stop.store(true, Ordering::Relaxed);
+}
+
+fn run_task(t: &Task, ti: usize, seed: u64, l: &mut Local, sh: &Shared) {
+    let sample_at = mix(ti as u64, seed) % t.weight().max(1);
+    match t {
+        Task::MajCommit { u, n, build, iv, gv, prefix } => {
+            let ids = permuted(&UNIVERSES[*u][..*n], seed);
+            let cfg = build_majority(&ids, *build);
+            let pos: Vec<usize> = (0..*n).collect();
+            let mk = || blank_case("majority", *build, &ids, &[]);
+            enum_acks(|gc, a| cfg.committed_index(gc, a), &mk, "majority", &ids, &pos, &[], *iv, *gv, prefix, false, *build != 0, l, sh, sample_at);
+        }
+        Task::MajVotes { u, n, build } => {
+            let ids = permuted(&UNIVERSES[*u][..*n], seed);
+            let cfg = build_majority(&ids, *build);
+            let pos: Vec<usize> = (0..*n).collect();
+            let mk = || blank_case("majority", *build, &ids, &[]);
+            enum_votes(|v| cfg.vote_result(|id| v.get(id)), &mk, "majority", &ids, &pos, &[], false, *build != 0, l, sh, sample_at);
+        }
+        Task::Joint { u, im, om, iv, gv } => {
+            let uni = &JOINT_UNIVERSES[*u];
+            let incoming = permuted(&mask_ids(uni, *im), seed);
+            let outgoing = permuted(&mask_ids(uni, *om), seed);
+            let union = mask_ids(uni, im | om);
+            let cfg = match build_joint(&incoming, &outgoing) {
+                Ok(c) => c,
+                Err(e) => return machinery(l, sh, e, blank_case("joint", 0, &incoming, &outgoing)),
+            };
+            if *im == 0 || *om == 0 {
+                if (im | om) != 0 {
+                    l.c.joint_one_half_empty += 1;
+                }
+            } else if im & om != 0 {
+                l.c.joint_overlapping += 1;
+            } else {
+                l.c.joint_disjoint += 1;
+            }
+            let ip = positions(&union, &incoming);
+            let op = positions(&union, &outgoing);
+            let mk = || blank_case("joint", 0, &incoming, &outgoing);
+            enum_acks(|gc, a| cfg.committed_index(gc, a), &mk, "joint", &union, &ip, &op, *iv, *gv, &[], true, false, l, sh, sample_at);
+            if sh.stop.load(Ordering::Relaxed) {
+                return;
+            }
+            enum_votes(|v| cfg.vote_result(|id| v.get(id)), &mk, "joint", &union, &ip, &op, true, false, l, sh, sample_at % 3u64.pow(union.len() as u32));
+        }
+        Task::Tracker { im, om } => run_tracker_task(*im, *om, seed, l, sh, sample_at),
+    }
+}
+
+/// The public ProgressTracker path for one (incoming, outgoing) pair over TRACKER_IDS, with one
+/// learner (far ahead, voting) and one stranger (voting) that must not influence anything.
+fn run_tracker_task(im: u32, om: u32, seed: u64, l: &mut Local, sh: &Shared, sample_at: u64) {
+    let incoming = permuted(&mask_ids(&TRACKER_IDS, im), seed);
+    let outgoing = permuted(&mask_ids(&TRACKER_IDS, om), seed);
+    let union = mask_ids(&TRACKER_IDS, im | om);
+    // a learner needs at least one voter (the Changer refuses a config without voters)
+    let learners = if union.is_empty() { vec![] } else { vec![TRACKER_LEARNER] };
+    let mut base = blank_case("tracker", 0, &incoming, &outgoing);
+    base.learners = learners.clone();
+    let mut t = match build_tracker(&incoming, &outgoing, &learners) {
+        Ok(t) => t,
+        Err(e) => return machinery(l, sh, e, base),
+    };
+    let n = union.len();
+    let mut local_n = 0u64;
+    // ---- maximal_committed_index: matched in 0..=2, group in 0..=2 per voter, learner at 3
+    let mut digits = [0u8; 4];
+    loop {
+        let mut acks: Vec<(u64, u64, u64)> = (0..n).map(|k| (union[k], (digits[k] / 3) as u64, (digits[k] % 3) as u64)).collect();
+        if !learners.is_empty() {
+            acks.push((TRACKER_LEARNER, 3, 1));
+        }
+        let in_vals: Vec<(u64, u64)> = incoming.iter().map(|i| acks.iter().find(|a| a.0 == *i).map(|a| (a.1, a.2)).unwrap()).collect();
+        let out_vals: Vec<(u64, u64)> = outgoing.iter().map(|i| acks.iter().find(|a| a.0 == *i).map(|a| (a.1, a.2)).unwrap()).collect();
+        for gc in [false, true] {
+            let r = guarded(|| {
+                t.enable_group_commit(gc);
+                for (id, x, g) in &acks {
+                    let p = t.get_mut(*id).expect("progress of a configured peer");
+                    p.matched = *x;
+                    p.commit_group_id = *g;
+                }
+                t.maximal_committed_index()
+            });
+            l.calls += 1;
+            let verdict = match r {
+                Ok(got) => {
+                    if local_n == sample_at && gc {
+                        let mut c = base.clone();
+                        c.gc = gc;
+                        c.acks = acks.clone();
+                        l.samples.push((c, format!("{:?}", got)));
+                    }
+                    judge_commit([&in_vals, &out_vals], gc, got).map(|(k, d)| (format!("tracker-{}", k), d))
+                }
+                Err((msg, loc)) => Some(("tracker-panic-in-maximal_committed_index".into(), format!("{} @ {}", msg, loc))),
+            };
+            if let Some((kind, detail)) = verdict {
+                let mut c = base.clone();
+                c.gc = gc;
+                c.acks = acks.clone();
+                l.found.push((kind, detail, c));
+                sh.stop.store(true, Ordering::Relaxed);
+                return;
+            }
+        }
+        l.inputs += 1;
+        l.c.tracker_inputs += 1;
+        local_n += 1;
+        let mut k = n;
+        let mut done = false;
+        loop {
+            if k == 0 {
+                done = true;
+                break;
+            }
+            k -= 1;
+            digits[k] += 1;
+            if digits[k] < 9 {
+                break;
+            }
+            digits[k] = 0;
+        }
+        if done {
+            break;
+        }
+    }
+    // ---- tally_votes: votes of the voters, the learner and the stranger
+    let mut voters_all = union.clone();
+    voters_all.push(TRACKER_LEARNER);
+    voters_all.push(TRACKER_STRANGER);
+    let m = voters_all.len();
+    let mut digits = [0u8; 6];
+    loop {
+        let votes: Vec<(u64, bool)> = (0..m).filter(|k| digits[*k] != 0).map(|k| (voters_all[k], digits[k] == 1)).collect();
+        let mut c = base.clone();
+        c.what = What::Tally;
+        c.votes = votes.clone();
+        let r = guarded(|| {
+            t.reset_votes();
+            for (id, v) in &votes {
+                t.record_vote(*id, *v);
+            }
+            t.tally_votes()
+        });
+        l.calls += 1;
+        let in_votes: Vec<Option<bool>> = incoming.iter().map(|i| c.vote_of(*i)).collect();
+        let out_votes: Vec<Option<bool>> = outgoing.iter().map(|i| c.vote_of(*i)).collect();
+        let verdict = match r {
+            Ok((g, rj, res)) => judge_tally(&c, &in_votes, &out_votes, (g, rj, ov_of(res))),
+            Err((msg, loc)) => Some(("tracker-panic-in-tally_votes".into(), format!("{} @ {}", msg, loc))),
+        };
+        if let Some((kind, detail)) = verdict {
+            l.found.push((kind, detail, c));
+            sh.stop.store(true, Ordering::Relaxed);
+            return;
+        }
+        l.inputs += 1;
+        l.c.tracker_inputs += 1;
+        if digits[m - 1] != 0 || digits[m - 2] != 0 {
+            l.c.tally_nonmember_votes += 1;
+        }
+        let mut k = m;
+        let mut done = false;
+        loop {
+            if k == 0 {
+                done = true;
+                break;
+            }
+            k -= 1;
+            digits[k] += 1;
+            if digits[k] < 3 {
+                break;
+            }
+            digits[k] = 0;
+        }
+        if done {
+            break;
+        }
+    }
+    // ---- has_quorum: every subset of voters + learner + stranger
+    for sm in 0u32..(1 << m) {
+        let set_ids: Vec<u64> = (0..m).filter(|k| sm >> k & 1 == 1).map(|k| voters_all[k]).collect();
+        let mut c = base.clone();
+        c.what = What::HasQuorum;
+        c.set = set_ids.clone();
+        let set: FxSet = set_ids.iter().copied().collect();
+        let r = guarded(|| t.has_quorum(&set));
+        l.calls += 1;
+        let iv: Vec<Option<bool>> = incoming.iter().map(|i| set_ids.contains(i).then_some(true)).collect();
+        let ov: Vec<Option<bool>> = outgoing.iter().map(|i| set_ids.contains(i).then_some(true)).collect();
+        let want = def_vote([&iv, &ov]) == OV::Won;
+        let verdict = match r {
+            Ok(got) if got == want => None,
+            Ok(got) => Some((
+                "tracker-has-quorum-mismatch".to_string(),
+                format!("has_quorum = {} but the set {} a majority of each non-empty half", got, if want { "contains" } else { "does not contain" }),
+            )),
+            Err((msg, loc)) => Some(("tracker-panic-in-has_quorum".into(), format!("{} @ {}", msg, loc))),
+        };
+        if let Some((kind, detail)) = verdict {
+            l.found.push((kind, detail, c));
+            sh.stop.store(true, Ordering::Relaxed);
+            return;
+        }
+        l.inputs += 1;
+        l.c.tracker_inputs += 1;
+    }
+}
+
+fn build_tasks(tier: &str) -> Vec<Task> {
+    let thorough = tier == "thorough";
+    let mut tasks = vec![];
+    for u in 0..UNIVERSES.len() {
+        for n in 0..=9usize {
+            let (iv, gv) = if n <= 7 { (4u64, 3u64) } else { (3, 2) };
+            // quick: the two largest sizes of each path (7 and 9) only over the first universe
+            let full = thorough || u == 0 || (n != 7 && n != 9);
+            if full {
+                let base = (1 + iv * gv) as u8;
+                // split big enumerations by their leading digits
+                let split = if n >= 7 { 2 } else if n >= 5 { 1 } else { 0 };
+                let mut prefixes: Vec<Vec<u8>> = vec![vec![]];
+                for _ in 0..split {
+                    prefixes = prefixes.iter().flat_map(|p| (0..base).map(move |d| { let mut q = p.clone(); q.push(d); q })).collect();
+                }
+                for p in prefixes {
+                    tasks.push(Task::MajCommit { u, n, build: 0, iv, gv, prefix: p });
+                }
+            }
+            tasks.push(Task::MajVotes { u, n, build: 0 });
+            if n <= 5 {
+                tasks.push(Task::MajCommit { u, n, build: 1, iv, gv, prefix: vec![] });
+                tasks.push(Task::MajVotes { u, n, build: 1 });
+            }
+        }
+    }
+    let ju = if thorough { JOINT_UNIVERSES.len() } else { 1 };
+    for u in 0..ju {
+        for im in 0u32..32 {
+            for om in 0u32..32 {
+                if im == 0 && om != 0 {
+                    continue; // not constructible: a joint config needs a non-empty incoming half
+                }
+                // quick: acked index in 0..=2 over the union, thorough: 0..=3
+                tasks.push(Task::Joint { u, im, om, iv: if thorough { 4 } else { 3 }, gv: 3 });
+            }
+        }
+    }
+    for im in 0u32..16 {
+        for om in 0u32..16 {
+            if im == 0 && om != 0 {
+                continue;
+            }
+            tasks.push(Task::Tracker { im, om });
+        }
+    }
+    tasks.sort_by_key(|t| t.order());
+    tasks
+}
+
+pub fn run(tier: &str, seed: u64, budget_s: f64, threads: usize) -> CompResult {
+    let t0 = Instant::now();
+    let tasks = build_tasks(tier);
+    let sh = Shared {
+        stop: AtomicBool::new(false),
+        timed_out: AtomicBool::new(false),
+        deadline: t0 + std::time::Duration::from_secs_f64((budget_s * 0.9).max(1.0)),
+    };
+    let next = AtomicUsize::new(0);
+    let skipped = AtomicUsize::new(0);
+    let merged: Mutex<Vec<Local>> = Mutex::new(vec![]);
+    let threads = threads.clamp(1, 64);
+    std::thread::scope(|s| {
+        for _ in 0..threads {
+            s.spawn(|| {
+                let mut l = Local::default();
+                loop {
+                    let ti = next.fetch_add(1, Ordering::Relaxed);
+                    if ti >= tasks.len() {
+                        break;
+                    }
+                    if sh.stop.load(Ordering::Relaxed) || sh.timed_out.load(Ordering::Relaxed) {
+                        skipped.fetch_add(1, Ordering::Relaxed);
+                        continue;
+                    }
+                    if Instant::now() > sh.deadline {
+                        sh.timed_out.store(true, Ordering::Relaxed);
+                        skipped.fetch_add(1, Ordering::Relaxed);
+                        continue;
+                    }
+                    run_task(&tasks[ti], ti, seed, &mut l, &sh);
+                }
+                merged.lock().unwrap().push(l);
+            });
+        }
+    });
+    let locals = merged.into_inner().unwrap();
+    let mut cnt = Cnt::default();
+    let (mut states, mut transitions) = (0u64, 0u64);
+    let mut found: Vec<(String, String, Case)> = vec![];
+    let mut samples_all: Vec<(Case, String)> = vec![];
+    for l in locals {
+        states += l.inputs;
+        transitions += l.calls;
+        cnt.merge(&l.c);
+        found.extend(l.found);
+        samples_all.extend(l.samples);
+    }
+
+    // violations: per kind the smallest case, confirmed by a from-scratch evaluation
+    found.sort_by_key(|(k, _, c)| (k.clone(), c.incoming.len() + c.outgoing.len(), c.acks.len() + c.votes.len() + c.set.len(), format!("{:?}", c)));
+    let mut violations: Vec<(String, String, Value)> = vec![];
+    for (kind, detail, case) in found {
+        if violations.iter().any(|(k, _, _)| *k == kind) || violations.len() >= MAX_KINDS {
+            continue;
+        }
+        let confirmed = eval_case(&case);
+        transitions += 1;
+        let detail = format!("{} — input {}", detail, case.to_json());
+        match confirmed {
+            Ok((_, Some((k2, _)))) if k2 == kind => violations.push((kind, detail, case.to_json())),
+            Err(_) if kind.contains("panic") => violations.push((kind, detail, case.to_json())),
+            other => violations.push((
+                "machinery-violation-did-not-confirm".into(),
+                format!("fast path reported [{}] {} but the from-scratch evaluation gave {:?}", kind, detail, other),
+                case.to_json(),
+            )),
+        }
+    }
+
+    // determinism self-check: re-evaluate sampled inputs from scratch (fresh configuration,
+    // stock HashMap AckIndexer) and compare the observed result with the recorded one
+    let mut validated = 0u64;
+    let stride = (samples_all.len() / 400).max(1);
+    for (k, (case, observed)) in samples_all.iter().enumerate() {
+        if k % stride != 0 {
+            continue;
+        }
+        validated += 1;
+        transitions += 1;
+        let r = eval_case(case);
+        let same = matches!(&r, Ok((o, _)) if o == observed);
+        if !same && violations.len() < MAX_KINDS && !violations.iter().any(|(k, _, _)| k == "re-evaluation-diverged") {
+            violations.push((
+                "re-evaluation-diverged".into(),
+                format!("first evaluation observed {} but a second, from-scratch evaluation gave {:?} — input {}", observed, r, case.to_json()),
+                case.to_json(),
+            ));
+        }
+    }
+
+    let mut samples = vec![];
+    for k in [0usize, samples_all.len() / 2, samples_all.len().saturating_sub(1)] {
+        if let Some((c, o)) = samples_all.get(k) {
+            samples.push(json!({"engine": ENGINE, "input": c.to_json(), "observed": o}));
+        }
+    }
+
+    let timed_out = sh.timed_out.load(Ordering::Relaxed);
+    let must = [
+        cnt.majority_commit_inputs,
+        cnt.majority_vote_inputs,
+        cnt.joint_commit_inputs,
+        cnt.joint_vote_inputs,
+        cnt.tracker_inputs,
+        cnt.stack_path,
+        cnt.heap_path,
+        cnt.empty_config,
+        cnt.joint_one_half_empty,
+        cnt.joint_overlapping,
+        cnt.joint_halves_disagree,
+        cnt.missing_acks,
+        cnt.ties_at_quorum,
+        cnt.gc_formula_case,
+        cnt.gc_below_plain,
+        cnt.votes_won,
+        cnt.votes_lost,
+        cnt.votes_pending,
+        cnt.joint_won_one_half_only,
+        cnt.tally_nonmember_votes,
+        cnt.alt_layout_inputs,
+    ];
+    let nonvacuous = !violations.is_empty() || timed_out || must.iter().all(|x| *x > 0);
+    let mut stats = cnt.json();
+    stats["tasks"] = json!(tasks.len());
+    stats["tasks_skipped"] = json!(skipped.load(Ordering::Relaxed));
+    stats["id_universes"] = json!(UNIVERSES.len());
+    stats["joint_pairs_not_constructible_via_public_api"] = json!(31);
+    let mut cap_hit = None;
+    if timed_out {
+        cap_hit = Some(format!("time budget ({:.0}s) exhausted; {} of {} tasks skipped", budget_s, skipped.load(Ordering::Relaxed), tasks.len()));
+    } else if !violations.is_empty() {
+        cap_hit = Some("stopped at the first violations".into());
+    }
+    CompResult {
+        engine: ENGINE.into(),
+        states,
+        transitions,
+        validated,
+        exhaustive: cap_hit.is_none(),
+        cap_hit,
+        samples,
+        stats,
+        violations,
+        nonvacuous,
+        wall_s: t0.elapsed().as_secs_f64(),
+    }
+}
+
+/// Re-evaluates one recorded input from scratch (twice). 1 if the disagreement with the
+/// definitions (or the panic) reproduces, 0 if not, 2 on malformed input.
+pub fn replay(j: &Value) -> i32 {
+    let cj = if j.get("ops").is_some_and(|o| o.is_object()) { &j["ops"] } else { j };
+    let Some(case) = Case::from_json(cj) else {
+        eprintln!("quorum replay: malformed input");
+        return 2;
+    };
+    let prop = j.get("property").and_then(|x| x.as_str()).unwrap_or("C11");
+    println!("input: {}", case.to_json());
+    let a = eval_case(&case);
+    let b = eval_case(&case);
+    if format!("{:?}", a) != format!("{:?}", b) {
+        println!("MACHINERY ERROR: two evaluations of the same input diverged");
+        return 2;
+    }
+    match a {
+        Ok((observed, None)) => {
+            println!("raft-rs returned {}; agrees with the definitions", observed);
+            println!("no violation of {} on this replay", prop);
+            0
+        }
+        Ok((_, Some((kind, detail)))) if kind.starts_with("machinery") => {
+            println!("MACHINERY ERROR: [{}] {}", kind, detail);
+            2
+        }
+        Ok((observed, Some((kind, detail)))) => {
+            println!("raft-rs returned {}: [{}] {}", observed, kind, detail);
+            println!("VIOLATION property={} engine={} kind={}", prop, ENGINE, kind);
+            1
+        }
+        Err((msg, loc)) => {
+            let kind = panic_kind(&case);
+            println!("raft-rs panicked: {} @ {}", msg, loc);
+            println!("VIOLATION property={} engine={} kind={}", prop, ENGINE, kind);
+            1
+        }
+    }
 }
